@@ -7,6 +7,7 @@ package verifzrpc
 import (
 	"time"
 
+	"github.com/zeromicro/go-zero/zrpc/internal"
 	"github.com/zeromicro/go-zero/zrpc/internal/clientinterceptors"
 	"github.com/zeromicro/go-zero/zrpc/internal/serverinterceptors"
 	"google.golang.org/grpc"
@@ -22,3 +23,11 @@ func ClientTimeoutInterceptor(def time.Duration) grpc.UnaryClientInterceptor {
 }
 
 func WithCallTimeout(d time.Duration) grpc.CallOption { return clientinterceptors.WithCallTimeout(d) }
+
+// ClientChain: the unary interceptor chain as the real client assembles it (see
+// internal.VerifUnaryClientChain); all = every middleware on, timeoutOn switches Middlewares.Timeout.
+func ClientChain(clientTimeout time.Duration, timeoutOn bool) grpc.UnaryClientInterceptor {
+	return internal.VerifUnaryClientChain(internal.ClientMiddlewaresConf{Trace: true, Duration: true, Prometheus: true, Breaker: true, Timeout: timeoutOn}, clientTimeout)
+}
+
+func IdleConn() *grpc.ClientConn { return internal.VerifIdleConn() }
